@@ -10,9 +10,40 @@ class _Unknown(Exception):
     pass
 
 
+def dispatch_subject(body):
+    """The expression an if/elif chain dispatches on: the most frequent
+    (subscript-stripped) left operand of the comparisons in the tests of
+    the top-level if/elif chains of the body."""
+    from collections import Counter
+    c = Counter()
+
+    def tests(st):
+        yield st.test
+        for s in st.orelse:
+            if isinstance(s, ast.If) and len(st.orelse) == 1:
+                yield from tests(s)
+    for st in body:
+        if not isinstance(st, ast.If):
+            continue
+        for t in tests(st):
+            for n in ast.walk(t):
+                if isinstance(n, ast.Compare) and len(n.ops) == 1 and \
+                        isinstance(n.ops[0], (ast.Eq, ast.In)):
+                    left = n.left
+                    while isinstance(left, ast.Subscript):
+                        left = left.value
+                    if isinstance(left, (ast.Name, ast.Attribute)):
+                        c[unparse(left)] += 1
+    return c.most_common(1)[0][0] if c else 'op'
+
+
 def _ev(e, env):
     if isinstance(e, ast.Constant):
         return e.value
+    subj = env.get('__subject__')
+    if subj is not None and isinstance(e, (ast.Name, ast.Attribute)) and \
+            unparse(e) == subj:
+        return env['op']
     if isinstance(e, ast.Name):
         if e.id in env:
             return env[e.id]
@@ -79,9 +110,10 @@ class ChainWalk:
     """Walks an if/elif dispatch on `op` for one concrete op string and
     records what the taken path does."""
 
-    def __init__(self, op, helpers=None):
+    def __init__(self, op, helpers=None, subject=None):
         self.op = op
-        self.env = {'op': op}
+        self.subject = subject
+        self.env = {'op': op, '__subject__': subject}
         self.formats = []        # struct formats on the path (ordered)
         self.alt_formats = []    # formats under undecidable tests
         self.arm = None          # text of the first true test
@@ -97,10 +129,10 @@ class ChainWalk:
                     t = _ev(st.test, self.env)
                 except (_Unknown, Exception):
                     # undecidable: collect both sides
-                    sub = ChainWalk(self.op, self.helpers)
+                    sub = ChainWalk(self.op, self.helpers, self.subject)
                     sub.env = dict(self.env)
                     sub.walk(st.body)
-                    sub2 = ChainWalk(self.op, self.helpers)
+                    sub2 = ChainWalk(self.op, self.helpers, self.subject)
                     sub2.env = dict(self.env)
                     sub2.walk(st.orelse)
                     self.alt_formats.append((unparse(st.test),
@@ -108,14 +140,16 @@ class ChainWalk:
                     self.stmts += sub.stmts + sub2.stmts
                     continue
                 if t:
-                    if self.arm is None and 'op' in unparse(st.test):
+                    if self.arm is None and (self.subject or 'op') in \
+                            unparse(st.test):
                         self.arm = unparse(st.test)
                     self.walk(st.body)
                 else:
                     if st.orelse and not (
                             len(st.orelse) == 1 and
                             isinstance(st.orelse[0], ast.If)):
-                        if self.arm is None and 'op' in unparse(st.test):
+                        if self.arm is None and (self.subject or 'op') in \
+                                unparse(st.test):
                             self.else_arm = True
                     self.walk(st.orelse)
                 continue
@@ -142,11 +176,16 @@ class ChainWalk:
 
 
 def bconv_helper(fn_node):
-    """For the local `bconv(value, type_char)` of QvmCode.assembled: returns
-    a function type_char -> [format]."""
+    """For the local `bconv(value, type_char)` of QvmCode.assembled (the
+    nested function holding a {type char: lambda: struct.pack} table):
+    returns (name, function type_char -> [format])."""
     target = None
     for n in ast.walk(fn_node):
-        if isinstance(n, ast.FunctionDef) and n.name == 'bconv':
+        if isinstance(n, ast.FunctionDef) and n is not fn_node and any(
+                isinstance(d, ast.Dict) and d.keys and all(
+                    isinstance(const(k), str) and len(const(k)) == 1
+                    for k in d.keys) and _struct_formats(d)
+                for d in ast.walk(n)):
             target = n
     if target is None:
         return None
@@ -160,7 +199,7 @@ def bconv_helper(fn_node):
                     tab[const(k)] = fs
     if not tab:
         return None
-    return lambda tc: list(tab.get(tc, ['?missing']))
+    return target.name, (lambda tc: list(tab.get(tc, ['?missing'])))
 
 
 def strip(fmt):
